@@ -131,18 +131,40 @@ theorem C19_foreign_entry_kept :
     (run true cfg foreignInput emptyDb).2 = true ∧
     (run true cfg foreignInput emptyDb).1 [0, 2, 9] = some (.file 66) := by decide
 
-/-- KNOWN FINDING (trio-outside-range): a trio file of a number outside the requested range
-(`00000.chunk` with the range 1..1; the expected set is `0..=beacon`) survives the clean-up -/
+/-- FIXED FINDING (trio-outside-range, commit 3360edee4), witness kept: a trio file of a number outside the requested
+range (`00000.chunk` and `00002.chunk` with the range 1..1 of a database ending at 2). Before the repair the expected
+set was every trio of `0..=beacon` and both survived the clean-up; after it the expected set is the requested range
+and both are removed, the call still succeeding -/
 def rangeInput : Input Nat :=
   { base with immutables := fun n => if n = 1 then
       [{ present := true, intact := true, entries := trioEntries 1 ++ [ent [1, 100] (.file 77), ent [1, 122] (.file 78)] }] else [] }
 
-theorem C19_range_bound_counterexample :
-    (run true cfg rangeInput emptyDb).2 = true ∧
-    (run true cfg rangeInput emptyDb).1 [0, 1, 100] = some (.file 77) ∧
-    (run true cfg rangeInput emptyDb).1 [0, 1, 122] = some (.file 78) := by decide
+theorem C19_range_bound_counterexample_before_repair :
+    (run false cfg rangeInput emptyDb).2 = true ∧
+    (run false cfg rangeInput emptyDb).1 [0, 1, 100] = some (.file 77) ∧
+    (run false cfg rangeInput emptyDb).1 [0, 1, 122] = some (.file 78) := by decide
 
-/-- … while a name that no trio of `0..=beacon` has is removed -/
+theorem C19_range_bound_repaired :
+    (run true cfg rangeInput emptyDb).2 = true ∧
+    (run true cfg rangeInput emptyDb).1 [0, 1, 100] = none ∧
+    (run true cfg rangeInput emptyDb).1 [0, 1, 122] = none ∧
+    (run true cfg rangeInput emptyDb).1 [0, 1, 110] = some (.file 12) := by decide
+
+/-- KNOWN FINDING (next-trio-not-from-ancillary; what is left of the range finding): with the ancillary files the
+expected set reaches one trio beyond the range, by name: `00003.chunk` (name 130) delivered by an IMMUTABLE archive of a
+database ending at 2 stays, whatever becomes of the ancillary archive -/
+def nextTrioInput : Input Nat :=
+  { base with
+    includeAncillary := true, range := .range 1 2,
+    immutables := fun n =>
+      if n = 1 then [{ present := true, intact := true, entries := trioEntries 1 }]
+      else if n = 2 then [{ present := true, intact := true, entries := trioEntries 2 ++ [ent [1, 130] (.file 78)] }]
+      else [] }
+
+theorem C19_next_trio_counterexample :
+    (run true cfg nextTrioInput emptyDb).1 [0, 1, 130] = some (.file 78) := by decide
+
+/-- … and a name that no trio has is removed -/
 def junkInput : Input Nat :=
   { base with immutables := fun n => if n = 1 then
       [{ present := true, intact := true, entries := trioEntries 1 ++ [ent [1, 9] (.file 77), ent [1, 130] (.file 78)] }] else [] }
@@ -157,13 +179,13 @@ theorem C19_unexpected_name_removed :
 a directory called like a trio file keeps what is below it, a symbolic link called like a trio file stays -/
 def byNameInput : Input Nat :=
   { base with immutables := fun n => if n = 1 then
-      [{ present := true, intact := true, entries := trioEntries 1 ++
-          [ent [1, 101, 9] (.file 77), ent [1, 100] (.symlink { abs := false, comps := [.up, .up, .nm 8] })] }] else [] }
+      [{ present := true, intact := true, entries :=
+          [ent [1, 112] (.file 12), ent [1, 111, 9] (.file 77), ent [1, 110] (.symlink { abs := false, comps := [.up, .up, .nm 8] })] }] else [] }
 
 theorem C19_kept_by_name_counterexample :
     (run true cfg byNameInput emptyDb).2 = true ∧
-    (run true cfg byNameInput emptyDb).1 [0, 1, 101, 9] = some (.file 77) ∧
-    (run true cfg byNameInput emptyDb).1 [0, 1, 100] = some (.link { abs := false, comps := [.up, .up, .nm 8] }) := by
+    (run true cfg byNameInput emptyDb).1 [0, 1, 111, 9] = some (.file 77) ∧
+    (run true cfg byNameInput emptyDb).1 [0, 1, 110] = some (.link { abs := false, comps := [.up, .up, .nm 8] }) := by
   decide
 
 /-- FIXED (commit 7ef1e4c11), witness kept. Genuine signed manifest vouching `ledger/9 ↦ 42`; the
